@@ -79,6 +79,20 @@ def scenario(sid, seed=0):
         )
         kinds = {"u": "QNT", "v": "QNT", "w": "QNT", "c": "CAT"}
         ranks = {}
+    elif sid == 7:
+        # an int64 feature whose magnitude exceeds 2**53 (nanosecond timestamps) next to float features: its cut points must
+        # not depend on being handled in one array together with floats
+        n = 24
+        X = pd.DataFrame(
+            {
+                "ts": pd.Series([2**60 + 1000 * ((7 * i) % n) for i in range(n)], dtype="int64"),
+                "fl": pd.Series([0.5 * (i % 6) for i in range(n)], dtype=float),
+                "q": pd.Series([float(i % 4) for i in range(n)], dtype=float),
+                "c": pd.Series([names[i % 3] for i in range(n)], dtype=object),
+            }
+        )
+        kinds = {"ts": "QNT", "fl": "QNT", "q": "QNT", "c": "CAT"}
+        ranks = {}
     elif sid == 6:
         # feature names that look like the per-class copies MulticlassCarver creates (lag -> lag_1, lag_2)
         n = 24
@@ -189,7 +203,7 @@ def outcome(obj, X, feats, Xnew=None):
             out[f] = ["dropped", None, [("nan" if isnan(v) else v) for v in tr[f].tolist()] == [("nan" if isnan(v) else v) for v in X[f].tolist()]]
             continue
         o = obj.values_orders[f]
-        canon = [[list(norm(k)), sorted(list(norm(v)) for v in o.content[k])] for k in o]
+        canon = [[list(norm(k)) + [repr(k)], sorted(list(norm(v)) + [repr(v)] for v in o.content[k])] for k in o]
         out[f] = ["kept", canon, [("nan" if isnan(v) else (float(v) if isinstance(v, (int, float, np.integer, np.floating)) else str(v))) for v in tr[f].tolist()]]
         if trn is not None:
             out[f].append(trn if isinstance(trn, str) else [("nan" if isnan(v) else (float(v) if isinstance(v, (int, float, np.integer, np.floating)) else str(v))) for v in trn[f].tolist()])
@@ -293,7 +307,7 @@ def real_run(args):
 
 
 def run(tier, seed, rep):
-    sids = [0, 1, 3, 4, 5] if tier == "quick" else [0, 1, 2, 3, 4, 5]
+    sids = [0, 1, 3, 4, 5, 7] if tier == "quick" else [0, 1, 2, 3, 4, 5, 7]
     cases = []
     # (a) subsets, orderings of the feature list, column orders -- sequential, no seams
     pairs = [(cls, sid) for cls in CLASSES for sid in sids] + [("MulticlassCarver", sid) for sid in MULTI_SIDS]
